@@ -659,6 +659,11 @@ func reportFindings(c *ev.Check, found map[string]*foundKey) {
 		it := item{key: k, f: f, ops: ops, class: map[string]bool{}}
 		for _, o := range ops {
 			it.class[opClass(o)] = true
+			if o.K == opLoad {
+				// a definitions file is also a plain definition: a history that fails with
+				// define(...) alone subsumes the same history with loadfile(...), not vice versa
+				it.class[opDefine] = true
+			}
 		}
 		items = append(items, it)
 	}
